@@ -979,6 +979,11 @@ _isinstance = isinstance
 
 
 def sx_isinstance(o, t):
+    # the builtins `int` / `str` may be shadowed by the shims in the module under test
+    if t is sx_int:
+        t = int
+    elif _isinstance(t, tuple) and sx_int in t:
+        t = tuple(int if x is sx_int else x for x in t)
     if _isinstance(o, SInt) and (t is int or (_isinstance(t, tuple) and int in t)):
         return True
     if _isinstance(o, SBytes) and (t in (bytes, bytearray) or
